@@ -132,7 +132,13 @@ def sortByK : List Child → List Child
 /-- `_ORMSelectCompileState._should_nest_selectable`: must the primary query become a
     subquery before the eager LEFT OUTER JOINs are attached? -/
 def shouldNest (eagerJoins multiRow hasLimit hasOffset hasFetch distinct groupBy : Bool) : Bool :=
-  -- `fetch_clause` is in `_select_args` but is not consulted (finding F23)
+  if !eagerJoins then false
+  else (hasLimit && multiRow) || (hasOffset && multiRow) || (hasFetch && multiRow)
+    || distinct || groupBy
+
+/-- the rule before fix 63056e6: `fetch_clause` was in `_select_args` but not consulted
+    (finding F23); kept to state what the fix changed -/
+def shouldNestOld (eagerJoins multiRow hasLimit hasOffset hasFetch distinct groupBy : Bool) : Bool :=
   let _ := hasFetch
   if !eagerJoins then false
   else (hasLimit && multiRow) || (hasOffset && multiRow) || distinct || groupBy
